@@ -692,7 +692,7 @@ pub fn run(ctx: &Ctx) -> ! {
         "cases = (decode target, input) with inputs from four generators: uniform random bytes; valid inputs (IETF serialization vectors + \
          harvested library output) mutated by bit flips, byte sets, truncation, insertion, deletion, varint-form overwrites/insertions, \
          out-of-range discriminants and splices; valid inputs unchanged; values built by the crate's `arbitrary` feature, encoded, and fed back. \
-         The library-made part of the valid corpus is harvested from this run's live groups (messages, trees, group contexts, commit secrets, commit descriptions by effect incl. ReInit; the 48 smallest of each kind). Oracle per input: no panic; peak heap growth <= 4096*len + 1 MiB; Ok(v) => encode(v) == consumed bytes, mls_encoded_len == bytes written, \
+         The library-made part of the valid corpus is harvested from this run's live groups (messages, key packages, GroupInfo objects, trees, leaf nodes, identities, capabilities, proposals, group contexts, commit secrets, commit descriptions by effect incl. ReInit; the 48 smallest of each kind). Oracle per input: no panic; peak heap growth <= 4096*len + 1 MiB; Ok(v) => encode(v) == consumed bytes, mls_encoded_len == bytes written, \
          decode(encode(v)) == v. Plus collections whose content length sits on the size-header boundaries (63/64, 16383/16384 bytes) and custom proposals of the reserved types 0-9. Plus every 1- and 2-byte varint form and sampled 4-byte forms against an RFC 9000 reference decoder. Plus the state a member stores \
          (snapshot incl. secret tree with skipped message keys, pending commit, pending updates, cached proposals; prior epochs) taken from generated group histories (hook): reported length == \
          bytes written, decodes completely, re-encodes to the same length, decoded value equal; the pending commit, which the snapshot carries as bytes, decodes completely and re-encodes to exactly those bytes. \
@@ -851,6 +851,13 @@ impl<'e> LiveEnc<'e> {
                 ))
             }
         }
+        if let mls_rs::group::CommitEffect::NewEpoch(ne) = &d.effect {
+            for p in ne.applied_proposals.iter().chain(ne.unused_proposals.iter()).take(4) {
+                if let Ok(b) = p.proposal.mls_encode_to_vec() {
+                    harvest("h_proposal", b);
+                }
+            }
+        }
         self.ev.class(&format!("live_state:{}", what.replace(' ', "_")));
         harvest(
             match &d.effect {
@@ -931,6 +938,40 @@ impl<'e> crate::history::Observer for LiveEnc<'e> {
             }
             if let Ok(b) = g.export_tree().to_bytes() {
                 harvest("h_tree", b);
+            }
+            // the parts: leaf nodes of the tree, the members' identities and capabilities, key packages and GroupInfo objects
+            let tree = g.export_tree();
+            for (i, _) in tree.nodes().iter().enumerate().step_by(2).take(6) {
+                if let Ok(li) = mls_rs::verif_hooks::LeafIndex::try_from((i / 2) as u32) {
+                    if let Ok(Some(l)) = tree.get_leaf(li) {
+                        if let Ok(b) = l.mls_encode_to_vec() {
+                            harvest("h_leaf_node", b);
+                        }
+                    }
+                }
+            }
+            for mem in g.roster().members().iter().take(4) {
+                if let Ok(b) = mem.signing_identity.mls_encode_to_vec() {
+                    harvest("h_signing_identity", b);
+                }
+                if let Ok(b) = mem.signing_identity.credential.mls_encode_to_vec() {
+                    harvest("h_credential", b);
+                }
+                if let Ok(b) = mem.capabilities.mls_encode_to_vec() {
+                    harvest("h_capabilities", b);
+                }
+            }
+            if let Ok(gi) = crate::world::guard(|| g.group_info_message(false)) {
+                if let Some(b) = gi.into_group_info().and_then(|x| x.mls_encode_to_vec().ok()) {
+                    harvest("h_group_info", b);
+                }
+            }
+            for kps in w.all_kps.values() {
+                for kp in kps.iter().rev().take(1) {
+                    if let Some(b) = mls_rs::MlsMessage::from_bytes(kp).ok().and_then(|m| m.into_key_package()).and_then(|k| k.mls_encode_to_vec().ok()) {
+                        harvest("h_key_package", b);
+                    }
+                }
             }
             let mut c = g.clone();
             let t = w.now();
